@@ -233,10 +233,15 @@ func genSet(r *rand.Rand) resSet {
 	}
 	for k := r.Intn(4); k > 0; k-- {
 		b := backend{Name: name(looseName)}
-		switch r.Intn(5) {
+		switch r.Intn(7) {
 		case 0:
 		case 1:
 			b.Address = "192.0.2." + strconv.Itoa(r.Intn(256))
+		case 5:
+			// IPv6 literals and other addresses with colons, dots at the edges, upper case, a trailing dot
+			b.Address = []string{"2001:db8::10", "::1", "2001:db8:0:0:0:0:0:1", "fe80::1", "::ffff:192.0.2.1"}[r.Intn(5)]
+		case 6:
+			b.Address = []string{"Origin.EXAMPLE.com", "origin.example.com.", "xn--caf-dma.example", "a-b_c.example.com", "localhost", "10.0.0.1"}[r.Intn(6)]
 		default:
 			b.Address = strings.ToLower(ident(r)) + ".example.com"
 		}
